@@ -36,3 +36,6 @@ CLAIMS["C19"] = {
     "design_ref": "DESIGN.md section 4 C19",
     "note": "Trusted: the symgo interpreter (validated per run by native replay of path models), z3 4.8.12, the native models of strings.Repeat/Join/Builder. Assumes one-byte symbols, <=4 symbols, value ranges per harness (see evidence bounds). Counter scoping in box building is not covered.",
 }
+H("C19", "css/counters", "VxH_C19_pad_negative", reach=["rendered"], bounds="decimal digits, pad 0..5, negative suffix '' or ')', value in [-120,120]")
+H("C19", "css/counters", "VxH_C19_range_fallback", reach=["in-range", "out-of-range"], bounds="explicit range [lo,hi] within [-6,6], value in [-8,8]")
+H("C19", "css/counters", "VxH_C19_cycles", reach=["terminated"], bounds="quick: 2 styles (thorough: 3), each fixed or extends one of the styles, decimal or a missing name, fallback likewise; value 0..9")
